@@ -56,7 +56,7 @@ def special(ctx):
         out["notes"].append("C20 size table skipped: work counter hook unavailable")
         return out
     tier, pid = ctx["tier"], ctx["pid"]
-    top = 16384 if tier == "thorough" else 4096
+    top = 16384   # the property's whole balanced table in both tiers (the real counter is cheap; the Lean cost model takes a few seconds)
     balanced = []
     n = 256
     while n <= top:
